@@ -1094,6 +1094,7 @@ impl ConnH {
                 self.kind = ConnKind::Gone;
                 "ok".into()
             }
+            ("cn_note", [..]) => "ok".into(),
             ("cn_io", []) => {
                 let i = self.io.0.lock().unwrap();
                 format!("io:rd={}:shutdown={}:unparsed={}", i.rd.len(), i.shutdown_called as u8, self.scan.pending_len())
